@@ -123,6 +123,19 @@ def run_oracle(scn, tr):
         pass
     except Exception as e:  # noqa: BLE001
         v.append(viol("result:unknown-key-wrong-exception", type(e).__name__))
+    # the other ways a dict takes new keys
+    for how, key, fn in (("update", "no_such_field2", lambda: r.update({"no_such_field2": 1})),
+                         ("update-kw", "no_such_field3", lambda: r.update(no_such_field3=1)),
+                         ("setdefault", "no_such_field4", lambda: r.setdefault("no_such_field4", 1))):
+        try:
+            fn()
+        except ValueError:
+            pass
+        except Exception as e:  # noqa: BLE001
+            v.append(viol("result:unknown-key-wrong-exception", f"{how}: {type(e).__name__}", site=how))
+        if key in dict.keys(r):
+            v.append(viol("result:unknown-key-writable", f"r.{how}(...) added the unknown key {key!r}", site=how))
+            dict.pop(r, key, None)
     # copies
     bx = np.array(b.x, copy=True)
     rx0 = np.array(r["x"], copy=True)
